@@ -333,6 +333,130 @@ def run_missing_rule_cases(res):
                     res["sets"].setdefault("missing_rule_exceptions", set()).add(raised)
 
 
+def run_registration_identity_cases(res):
+    """Rules belong to the primitive OBJECT they were registered for: several primitives wrapped around one and the
+    same raw callable (a def, a NumPy function, a bound method) carry independent rule sets (exact rule,
+    straight-through rule, declared-zero rule, no rule at all), whatever the order of wrapping, registering and
+    first use; and a registration made after a primitive was already differentiated replaces the earlier one."""
+    import autograd.numpy as anp
+    from autograd.core import make_jvp, make_vjp
+    from autograd.extend import defjvp, defvjp, primitive
+
+    def raw_def(x):
+        return onp.sin(x)
+
+    class _Holder:
+        def meth(self, x):
+            return onp.sin(x)
+
+    raws = {"def": raw_def, "numpy_function": onp.sin, "bound_method": _Holder().meth, "lambda": (lambda x: onp.sin(x))}
+    x0 = onp.array([0.3, -0.8, 1.9])
+    g0 = onp.array([1.0, -2.0, 0.5])
+    for rname, raw in raws.items():
+        for order in ("wrap_all_then_register", "interleaved", "use_first_then_wrap_second"):
+            res["evaluations"] += 1
+            sig = {"engine": "ext", "family": "registration_identity", "raw": rname, "order": order}
+            case = {"kind": "registration_identity", "raw": rname, "order": order}
+            log = []
+            try:
+                with warnings.catch_warnings():
+                    warnings.simplefilter("ignore")
+                    reg_exact = lambda P: (defvjp(P, lambda ans, x: (log.append("exact.vjp"), lambda g: g * anp.cos(x))[1]), defjvp(P, lambda g, ans, x: (log.append("exact.jvp"), g * anp.cos(x))[1]))
+                    reg_ste = lambda P: (defvjp(P, lambda ans, x: (log.append("ste.vjp"), lambda g: g)[1]), defjvp(P, lambda g, ans, x: (log.append("ste.jvp"), g)[1]))
+                    reg_zero = lambda P: (defvjp(P, None), defjvp(P, None))
+                    if order == "wrap_all_then_register":
+                        Pe, Ps, Pz, Pn = primitive(raw), primitive(raw), primitive(raw), primitive(raw)
+                        reg_exact(Pe), reg_ste(Ps), reg_zero(Pz)
+                    elif order == "interleaved":
+                        Ps = primitive(raw)
+                        reg_ste(Ps)
+                        Pe = primitive(raw)
+                        Pz = primitive(raw)
+                        reg_zero(Pz)
+                        reg_exact(Pe)
+                        Pn = primitive(raw)
+                    else:
+                        Pe = primitive(raw)
+                        reg_exact(Pe)
+                        make_vjp(Pe, x0)[0](g0)
+                        make_jvp(Pe, x0)(g0)
+                        del log[:]
+                        Ps = primitive(raw)
+                        reg_ste(Ps)
+                        Pz = primitive(raw)
+                        reg_zero(Pz)
+                        Pn = primitive(raw)
+                    distinct = len({id(Pe), id(Ps), id(Pz), id(Pn)}) == 4
+                    out = {}
+                    for nm, P in (("exact", Pe), ("ste", Ps), ("zero", Pz)):
+                        del log[:]
+                        out[nm + ".vjp"] = (make_vjp(P, x0)[0](g0), list(log))
+                        del log[:]
+                        out[nm + ".jvp"] = (make_jvp(P, x0)(g0)[1], list(log))
+                    loud = []
+                    for mode in ("rev", "fwd"):
+                        try:
+                            (make_vjp(Pn, x0)[0](g0) if mode == "rev" else make_jvp(Pn, x0)(g0))
+                            loud.append(False)
+                        except NotImplementedError:
+                            loud.append(True)
+            except Exception as e:
+                res["violations"].append({"sig": dict(sig, symptom="exception:" + type(e).__name__), "case": case, "detail": traceback.format_exc()[-400:]})
+                continue
+            want = {"exact": g0 * onp.cos(x0), "ste": g0, "zero": onp.zeros(3)}
+            bad = None
+            if not distinct:
+                bad = "primitive() handed out the same object for separate wrappings of one raw callable"
+            for key, (val, lg) in out.items():
+                nm, md = key.split(".")
+                if bad:
+                    break
+                if not onp.allclose(val, want[nm], rtol=1e-13, atol=1e-13):
+                    bad = "%s primitive, %s: result %r, its own rule gives %r (rules invoked: %s)" % (nm, md, val, want[nm], lg)
+                elif nm != "zero" and lg != [key]:
+                    bad = "%s primitive, %s: rules invoked %s, expected exactly [%s]" % (nm, md, lg, key)
+            if not bad and not all(loud):
+                bad = "the primitive without any rule did not raise (rev, fwd loud: %s)" % loud
+            if bad:
+                res["violations"].append({"sig": dict(sig, symptom="foreign_rule"), "case": case, "detail": bad})
+            res["judged"][sig_key(sig)] = 1
+    # re-registration after the primitive has been differentiated once (both modes, both kinds of change)
+    for change in ("replace_rule", "add_missing_argnum", "declare_zero"):
+        res["evaluations"] += 1
+        sig = {"engine": "ext", "family": "reregistration_after_use", "change": change}
+        case = {"kind": "registration_identity", "change": change}
+        try:
+            with warnings.catch_warnings():
+                warnings.simplefilter("ignore")
+                P = primitive(lambda x, y: onp.sin(x) * y)
+                defvjp(P, lambda ans, x, y: lambda g: g * anp.cos(x) * y)
+                defjvp(P, lambda g, ans, x, y: g * anp.cos(x) * y)
+                y0 = onp.array([2.0, 0.5, -1.0])
+                r_old = make_vjp(lambda t: P(t, y0), x0)[0](g0)
+                t_old = make_jvp(lambda t: P(t, y0), x0)(g0)[1]
+                if change == "replace_rule":
+                    defvjp(P, lambda ans, x, y: lambda g: g * 7.0)
+                    defjvp(P, lambda g, ans, x, y: g * 7.0)
+                    got = (make_vjp(lambda t: P(t, y0), x0)[0](g0), make_jvp(lambda t: P(t, y0), x0)(g0)[1])
+                    want = (g0 * 7.0, g0 * 7.0)
+                elif change == "add_missing_argnum":
+                    defvjp(P, lambda ans, x, y: lambda g: g * anp.cos(x) * y, lambda ans, x, y: lambda g: g * anp.sin(x))
+                    defjvp(P, lambda g, ans, x, y: g * anp.cos(x) * y, lambda g, ans, x, y: g * anp.sin(x))
+                    got = (make_vjp(lambda t: P(x0, t), y0)[0](g0), make_jvp(lambda t: P(x0, t), y0)(g0)[1])
+                    want = (g0 * onp.sin(x0), g0 * onp.sin(x0))
+                else:
+                    defvjp(P, None)
+                    defjvp(P, None)
+                    got = (make_vjp(lambda t: P(t, y0), x0)[0](g0), make_jvp(lambda t: P(t, y0), x0)(g0)[1])
+                    want = (onp.zeros(3), onp.zeros(3))
+        except Exception as e:
+            res["violations"].append({"sig": dict(sig, symptom="exception:" + type(e).__name__), "case": case, "detail": traceback.format_exc()[-400:]})
+            continue
+        if not (onp.allclose(got[0], want[0], rtol=1e-13, atol=1e-13) and onp.allclose(got[1], want[1], rtol=1e-13, atol=1e-13)):
+            res["violations"].append({"sig": dict(sig, symptom="stale_rule"), "case": case, "detail": "after %s: reverse %r forward %r, the rules registered last give %r" % (change, got[0], got[1], want[0])})
+        res["judged"][sig_key(sig)] = 1
+
+
 def run_deprecated_api_cases(res):
     """The pre-1.2 registration methods of `autograd.primitive` objects (defvjp(fn, argnum=), defgrad,
     defvjp_is_zero) in every order and split of calls: each must yield the same rules as one combined call."""
@@ -698,6 +822,7 @@ def run_shard(pid, tier, seed, idx, n):
     if idx == 1 % n:
         run_none_shape_cases(res)
         run_deprecated_api_cases(res)
+        run_registration_identity_cases(res)
         run_fixed_point_cases(res)
         run_container_output_cases(res)
     ncp = 400 if tier == "quick" else 6000
@@ -729,6 +854,9 @@ def replay(pid, case):
         res["violations"] = [v for v in res["violations"] if v["case"] == case]
     elif k == "fixed_point":
         run_fixed_point_cases(res)
+        res["violations"] = [v for v in res["violations"] if v["case"] == case]
+    elif k == "registration_identity":
+        run_registration_identity_cases(res)
         res["violations"] = [v for v in res["violations"] if v["case"] == case]
     elif k == "deprecated":
         run_deprecated_api_cases(res)
